@@ -6,5 +6,6 @@ st=e['coverage'].get('selftest',{})
 for d in st.get('details',[]): print(' ', 'OK ' if d['as_expected'] else 'BAD', d['variant'], d['expected'], d['fired'])
 for d in st.get('seeded',[]): print('  seeded', d)
 print('  n/a:', st.get('not_applicable'))
+for d in st.get('rename_twins',{}).get('false_alarms',[])+st.get('structural_twins',{}).get('false_alarms',[]): print('  TWIN-ALARM', d)
 for k,v in e['coverage']['rules'].items(): print(' ', k, v['instances'], v['discharged'])
 "
